@@ -22,6 +22,7 @@ bool jx_is_success(const struct cl_msg *m);
 void jx_expire_all_timers(int maxrounds);
 /* final phase helpers; each returns the number of findings it raised through xp_finding with the given key prefix */
 void jx_close_all(void); /* FIN on every open client connection, settle */
+extern bool jx_ignore_accounted_heap; /* set when the persistent in-memory credential set legitimately changed size (successful passwd) */
 int jx_check_idle_baseline(const char *keyprefix);  /* peers/heap/fds/timers back at the idle baseline */
 int jx_sigterm_and_check(const char *keyprefix);    /* SIGTERM, loop ends, everything released, exit 0 */
 int jx_check_hygiene(const char *keyprefix);        /* descriptor hygiene events */
